@@ -658,16 +658,24 @@ func (d *decoder) parseDataFields(dm *defmsg, knownMsg bool, msgv reflect.Value)
 		}
 
 		if padding != 0 {
+			// Sign-extend narrow signed values (coordinates).
+			pad := byte(0x00)
 			if dm.arch == le {
+				if dfield.btype.Signed() && d.tmp[dsize-1]&0x80 != 0 {
+					pad = 0xFF
+				}
 				for j := dsize; j < pfield.t.BaseType().Size(); j++ {
-					d.tmp[j] = 0x00
+					d.tmp[j] = pad
 				}
 			} else {
+				if dfield.btype.Signed() && d.tmp[0]&0x80 != 0 {
+					pad = 0xFF
+				}
 				for j := dsize - 1; j >= 0; j-- {
 					d.tmp[j+padding] = d.tmp[j]
 				}
 				for j := 0; j < padding; j++ {
-					d.tmp[j] = 0x00
+					d.tmp[j] = pad
 				}
 			}
 		}
@@ -724,15 +732,15 @@ func (d *decoder) parseFitField(dm *defmsg, dfield fieldDef, fieldv reflect.Valu
 	case types.BaseByte, types.BaseEnum, types.BaseUint8, types.BaseUint8z:
 		fieldv.SetUint(uint64(d.tmp[0]))
 	case types.BaseSint8:
-		fieldv.SetInt(int64(d.tmp[0]))
+		fieldv.SetInt(int64(int8(d.tmp[0])))
 	case types.BaseSint16:
-		i16 := int64(dm.arch.Uint16(d.tmp[:dsize]))
+		i16 := int64(int16(dm.arch.Uint16(d.tmp[:dsize])))
 		fieldv.SetInt(i16)
 	case types.BaseUint16, types.BaseUint16z:
 		u16 := uint64(dm.arch.Uint16(d.tmp[:dsize]))
 		fieldv.SetUint(u16)
 	case types.BaseSint32:
-		i32 := int64(dm.arch.Uint32(d.tmp[:dsize]))
+		i32 := int64(int32(dm.arch.Uint32(d.tmp[:dsize])))
 		fieldv.SetInt(i32)
 	case types.BaseUint32, types.BaseUint32z:
 		u32 := uint64(dm.arch.Uint32(d.tmp[:dsize]))
